@@ -2132,8 +2132,8 @@ double BW_MidiSequencer::Tick(double s, double granularity)
     {
         if(!processEvents())
             break;
-        if(m_currentPosition.wait <= 0.0)
-            antiFreezeCounter--;
+        // Every handled row counts: with a huge granularity a looping song never gets out of reach
+        antiFreezeCounter--;
     }
 
     if(antiFreezeCounter <= 0)
